@@ -313,7 +313,7 @@ func (e *Engine) RunHarness(prop, name, tier string, opts HarnessOpts, known map
 		opts.TimeoutMs = 20000
 	}
 	if opts.Workers == 0 {
-		opts.Workers = 8
+		opts.Workers = 14
 	}
 	if opts.MaxPaths == 0 {
 		opts.MaxPaths = 200000
